@@ -35,6 +35,7 @@ PROPS = {
         "level": "exploration",
         "units": [
             U("c02", "TestSoundness", T(60, 16, 300), T(1500, 16, 2400)),
+            U("c02", "TestAutoVerify", T(25, 8, 300), T(400, 16, 2400)),
         ],
     },
     "C03": {
